@@ -408,3 +408,96 @@ Theorem c05_convert_chain_example :
   qil_eqb (List.concat (ob_dat QIF (observe QIF c))) (List.concat (ob_dat QIF (observe QIF d))) = false.
 Proof. exact chain_evaluated. Qed.
 Print Assumptions c05_convert_chain_example.
+
+(* ======================================================================================
+   Session 5, second part (Data/ChainNModel.v, ChainLift.v, ChainNProofs.v, ChainNExamples.v):
+   the n-port functions interpreted by THEIR OWN LU model (Conv/ConvN.v) - `convn_interp`: F2 = the
+   generated two-port function, FN = vnaconv_stozn / ztosn / stoyn / ytosn / ztoyn / ytozn as
+   modelled, for the pivot order `swap` (the n = 2 theorems of Conv/ConvN2.v are for the two constant
+   comparators; Properties_C04n.c04_lu2_two_pivot_orders: every comparator behaves like one of them
+   on each 2 x 2 matrix - that last step is not composed), FI2 = the generated vnaconv_Xtozi, FIN =
+   vnaconv_stozin / ztozin / ytozin as modelled. *)
+Require Import LV.Lin.MatL LV.Lin.LuModel LV.Conv.ConvN.
+Require Import LV.Data.ChainNModel LV.Data.ChainLift LV.Data.ChainNProofs LV.Data.ChainNExamples.
+
+(* (1) convert_chain no longer resting on the identification.  Extra hypotheses it brings
+   (chainN_ok = chain_ok + per frequency): for each of the three calls that goes to an n-port
+   function (both types in S, Z, Y) the first pivot of that function's LU factorisation for the
+   order `swap` is non-zero - pivot_ok: S->Z: 1 - s11 (swap: s21); Z->S: z11 + z0_1 (z21); S->Y:
+   s11 z0_1 + conj z0_1 (s21 and z0_1); Y->S: z0_1 y11 + 1 (z0_2 and y21); Z<->Y: m11 (m21) - at the
+   matrix of the object for X->Y and X->Z and at the image for Y->Z. *)
+Theorem c05_convert_chain_composed : forall (K : CField) (M : Type) (nrm2 : K -> M) (mulM : M -> M -> M)
+    (zeroM : M) (scale_of_max : M -> M) (swap : bool) (zd vdef : K)
+    (d o1 o2 o3 : vd K) (s1 s2 s3 : bool) X Y Z,
+  char_ok K -> Inv K c0 vdef d -> Inv K c0 vdef o1 -> Inv K c0 vdef o2 -> Inv K c0 vdef o3 ->
+  ty K d = vpt_of_pt X -> rows K d = 2 -> cols K d = 2 ->
+  X <> Y -> Y <> Z -> X <> Z ->
+  chainN_ok K swap (abs K d) X Y Z ->
+  let cv := convert K c0 vdef fixed true (convn_interp K M nrm2 mulM (fun _ _ => swap) zeroM scale_of_max zd) in
+  let rb := cv d o1 s1 (vpt_code (vpt_of_pt Y)) in
+  let rc := cv (fst rb) o2 s2 (vpt_code (vpt_of_pt Z)) in
+  let rd := cv d o3 s3 (vpt_code (vpt_of_pt Z)) in
+  snd rb = ok K /\ snd rc = ok K /\ snd rd = ok K /\ arr_eq K (abs K (fst rc)) (abs K (fst rd)).
+Proof. exact convert_chain_composed. Qed.
+Print Assumptions c05_convert_chain_composed.
+
+(* (2a) round trip X -> Y -> X on 2 x 2 objects: both calls succeed and the object has its original
+   logical contents - type, dimensions, frequencies, every cell, z0 mode, impedances, options
+   (roundtrip_ok: per frequency z0_ok, singular sets of X->Y at the matrix and Y->X at the image,
+   pivots of the n-port calls) *)
+Theorem c05_convert_roundtrip : forall (K : CField) (M : Type) (nrm2 : K -> M) (mulM : M -> M -> M)
+    (zeroM : M) (scale_of_max : M -> M) (swap : bool) (zd vdef : K)
+    (d o1 o2 : vd K) (s1 s2 : bool) X Y,
+  char_ok K -> Inv K c0 vdef d -> Inv K c0 vdef o1 -> Inv K c0 vdef o2 ->
+  ty K d = vpt_of_pt X -> rows K d = 2 -> cols K d = 2 -> X <> Y ->
+  roundtrip_ok K swap (abs K d) X Y ->
+  let cv := convert K c0 vdef fixed true (convn_interp K M nrm2 mulM (fun _ _ => swap) zeroM scale_of_max zd) in
+  let rb := cv d o1 s1 (vpt_code (vpt_of_pt Y)) in
+  let rc := cv (fst rb) o2 s2 (vpt_code (vpt_of_pt X)) in
+  snd rb = ok K /\ snd rc = ok K /\ arr_eq K (abs K (fst rc)) (abs K d).
+Proof. exact convert_roundtrip. Qed.
+Print Assumptions c05_convert_roundtrip.
+
+(* (2b) X -> Y -> Zin against X -> Zin on 2 x 2 objects, X and Y any matrix types except Y-parameters
+   (vnaconv_ytozin has no n = 2 theorem in Conv/ConvN2.v; hence `_partial`): same 1 x 2 object.
+   zin_chain_ok per frequency: z0_ok; singular set and pivot of X->Y; conv2zi_ok of X at the matrix
+   and of Y at the image (the denominators of the zi function and of the conversion to S, as in
+   c04_two_port_zi); the pivot of vnaconv_ztozin when the type is Z; and drive_ok: in the S
+   description of the network each port driven alone carries a non-zero current (the states from
+   which the input impedances are read off are not degenerate). *)
+Theorem c05_convert_zin_chain_partial : forall (K : CField) (M : Type) (nrm2 : K -> M) (mulM : M -> M -> M)
+    (zeroM : M) (scale_of_max : M -> M) (swap : bool) (zd vdef : K)
+    (d o1 o2 o3 : vd K) (s1 s2 s3 : bool) X Y,
+  char_ok K -> Inv K c0 vdef d -> Inv K c0 vdef o1 -> Inv K c0 vdef o2 -> Inv K c0 vdef o3 ->
+  ty K d = vpt_of_pt X -> rows K d = 2 -> cols K d = 2 -> X <> Y -> X <> PY -> Y <> PY ->
+  zin_chain_ok K swap (abs K d) X Y ->
+  let cv := convert K c0 vdef fixed true (convn_interp K M nrm2 mulM (fun _ _ => swap) zeroM scale_of_max zd) in
+  let rb := cv d o1 s1 (vpt_code (vpt_of_pt Y)) in
+  let rc := cv (fst rb) o2 s2 (vpt_code VZIN) in
+  let rd := cv d o3 s3 (vpt_code VZIN) in
+  snd rb = ok K /\ snd rc = ok K /\ snd rd = ok K /\ arr_eq K (abs K (fst rc)) (abs K (fst rd)).
+Proof. exact convert_zin_chain. Qed.
+Print Assumptions c05_convert_zin_chain_partial.
+
+(* the per-frequency fact behind (2b): the two-port input impedances of the image equal those of
+   the original *)
+Theorem c05_zi_of_converted_matrix : forall (K : CField) X Y f (m : m2 K) (z1 z2 : K),
+  char_ok K -> z0_ok z1 -> z0_ok z2 -> X <> Y -> conv2 K X Y = Some f ->
+  conv2_ok K X Y m z1 z2 -> conv2zi_ok K X m z1 z2 -> conv2zi_ok K Y (f m z1 z2) z1 z2 ->
+  drive_ok K (conv2_to_s K X m z1 z2) z1 z2 ->
+  conv2zi K Y (f m z1 z2) z1 z2 = conv2zi K X m z1 z2.
+Proof. exact zi_chain. Qed.
+Print Assumptions c05_zi_of_converted_matrix.
+
+(* non-vacuity over Q[i]: for both pivot orders, every X, Y, Z and both z0 modes the objects of
+   Data/ChainExamples.v (two frequencies, reached from vnadata_alloc) meet the hypotheses of the
+   three theorems above *)
+Theorem c05_composed_hypotheses_satisfiable : forall swap X Y Z perf,
+  chainN_ok QIF swap (abs QIF (ex_obj X perf)) X Y Z /\
+  roundtrip_ok QIF swap (abs QIF (ex_obj X perf)) X Y /\
+  zin_chain_ok QIF swap (abs QIF (ex_obj X perf)) X Y.
+Proof.
+  exact (fun swap X Y Z perf => conj (chainN_satisfiable swap X Y Z perf)
+           (conj (roundtrip_satisfiable swap X Y perf) (zin_chain_satisfiable swap X Y perf))).
+Qed.
+Print Assumptions c05_composed_hypotheses_satisfiable.
